@@ -45,6 +45,11 @@ structure Facts where
       `if err != nil { return err }` plumbing normalised to a trailing `!`) of the functions that
       orchestrate Flatten, translated from the Go source by `harness/cmd/extract/skeleton.go` -/
   skeletons : List (String × List String) := []
+  /-- index fields of the analyzed `Spec` (maps, slices, pointers other than the document) that
+      `(*Spec).reset` does not replace by a fresh value: they would survive `reload()` -/
+  resetStale : List String := []
+  /-- control skeleton of `(*Spec).reload` -/
+  reloadSkeleton : List String := ["s.reset()", "s.initialize()"]
   deriving Repr
 
 namespace Facts
